@@ -29,6 +29,13 @@ from pyvc.values import NativeMethod, Obj, Opaque, PDict, PList, SArr, Sym, fres
 
 DEPENDS = ["C18", "C05"]  # read_swc relies on the verified contracts of reset_index_ / mark_roots_as_somas_ / link_roots_to_nearest_ / is_single_root (C18) and sort_nodes_ (C05)
 
+# Dtype-faithful casts (pyvc/ext_C05_frame.py: int -> narrower int wraps modulo 2**bits, ...) are ON for parse_swc / read_swc.  For the
+# carriers that BUILD the Tree (Tree.from_swc here, Tree.from_data_frame / Tree.__init__ under C01) they are off by default: the UNCHANGED
+# Tree.__init__ narrows the int64 table columns to int32 (padding1d(..., dtype=np.int32)), so "every column of the tree is the column of the
+# table" is false there for ids / types / parents >= 2**31 (observation, docs/w4/g-c01.md section 4).  VERIF_FAITHFUL_TREE=1 switches it on.
+import os as _os
+
+FAITHFUL_TREE_BUILD = _os.environ.get("VERIF_FAITHFUL_TREE") == "1"
 FILE = "swcgeom/utils/file.py"
 IO = "swcgeom/core/swc_utils/io.py"
 TREE = "swcgeom/core/tree.py"
@@ -256,10 +263,23 @@ def _df_from_dict(eng, args, kwargs):
     return DFrame(cols, n0 if n0 is not None else 0)
 
 
+def _to_numeric(eng, args, kwargs):
+    """pd.to_numeric(numeric column[, downcast=...]): the same values; `downcast` picks the smallest dtype that HOLDS every value (pandas
+    keeps the dtype when one does not fit), so no value changes (floats are reals here); the resulting width is not recorded"""
+    v = args[0] if args else None
+    if len(args) != 1 or set(kwargs) - {"downcast", "errors"} or not isinstance(v, SArr) or v.kind not in ("int", "real"):
+        raise Unsupported("pd.to_numeric form")
+    if kwargs.get("errors", "raise") != "raise" or kwargs.get("downcast") not in (None, "integer", "signed", "unsigned", "float"):
+        raise Unsupported("pd.to_numeric options")
+    eng.assumptions.add("pandas-model: pd.to_numeric(numeric column, downcast=...) keeps every value (downcast only to a dtype that holds them all); width not recorded")
+    return type(v)(v.arr, v.n, v.kind, name=v.name)
+
+
 def _install_pandas():
     import pandas as pd
 
     M.EXTRA_MODELS[pd.DataFrame.from_dict] = _df_from_dict
+    M.EXTRA_MODELS[pd.to_numeric] = _to_numeric
 
 
 _install_pandas()
@@ -603,6 +623,7 @@ def register_parse(R):
             import swcgeom.core.swc_utils.io as io_mod
 
             IOX.install_io(AStr)
+            S.eng.ghost["dtype-faithful"] = True  # astype / np.asarray(dtype=) on the parsed columns: dtype-faithful casts (pyvc/ext_C05_frame.py)
 
             for g in list(vars(io_mod).values()):  # module-level compiled patterns (RE_COMMENT)
                 if isinstance(g, re.Pattern):
@@ -931,6 +952,7 @@ def register_read(R):
 
     def read_setup(fix_roots, sort_nodes, reset_index):
         def f(S):
+            S.eng.ghost["dtype-faithful"] = True
             src = S.opaque({}, "swc_file")
             return dict(swc_file=src, extra_cols=None, fix_roots=fix_roots, sort_nodes=sort_nodes, reset_index=reset_index,
                         encoding="utf-8", names=None)
@@ -1203,6 +1225,8 @@ def register_read(R):
             from swcgeom.core.tree import Tree
 
             ext_C01.install()
+            if FAITHFUL_TREE_BUILD:
+                S.eng.ghost["dtype-faithful"] = True
             M.EXTRA_MODELS[os.path.abspath] = abspath_model
             src = S.opaque({"__isinstance__": (str,)} if kind == "path" else {}, "swc_file")
             return dict(cls=Tree, swc_file=src, g_kind=kind, kwargs=PDict(dict(options)))
@@ -1337,6 +1361,7 @@ def register_read_plumbing(R):
     def setup(extra, names_given, encoding, reset_index):
         def f(S):
             IOX.install_io(AStr)
+            S.eng.ghost["dtype-faithful"] = True
             ex = PList(list(extra)) if extra is not None else None
             if ex is not None:
                 ex.frozen = True
